@@ -299,6 +299,12 @@ public:
     {
     }
 
+    // (as the library's own checkpoint classes: readable from a stream)
+    explicit FixedWeightsChkpt(std::istream& in)
+        : hep::chkpt_with_rng<E, hep::chkpt<hep::multi_channel_result<T>>>(in)
+    {
+    }
+
     void channels(std::size_t n)
     {
         if (weights_.size() != n) weights_.assign(n, T(1) / T(n));
